@@ -488,6 +488,31 @@ class Mini:
         literals, arithmetic on earlier constants.  Names the harness models
         itself keep their model value; anything that cannot be evaluated is
         left undefined (a later use fails closed)."""
+        # names reach the module through its import statements: a
+        # from-import of something the harness models is the same model
+        # entry under the imported name (`from ..pkg import f` = pkg.f,
+        # `from .. import pkg as p` / `import a.pkg as p` = pkg)
+        for st in tree.body:
+            if isinstance(st, ast.ImportFrom):
+                last = (st.module or "").split(".")[-1]
+                for a in st.names:
+                    local = a.asname or a.name
+                    if local in self.g:
+                        continue
+                    if last and last in self.g:
+                        try:
+                            self.g[local] = getattr(self.g[last], a.name)
+                            continue
+                        except (MiniError, AttributeError):
+                            pass
+                    if a.name in self.g:
+                        self.g[local] = self.g[a.name]
+            elif isinstance(st, ast.Import):
+                for a in st.names:
+                    last = a.name.split(".")[-1]
+                    if a.asname and a.asname not in self.g \
+                            and last in self.g:
+                        self.g[a.asname] = self.g[last]
         for st in tree.body:
             if isinstance(st, ast.FunctionDef):
                 self.g[st.name] = self.bind(st)
